@@ -16,6 +16,7 @@ import (
 	"net/http"
 	"os"
 	"path/filepath"
+	"runtime"
 	"sort"
 	"strconv"
 	"strings"
@@ -894,6 +895,18 @@ func (w *World) Close() {
 	}
 	w.probeTr.CloseIdleConnections()
 	time.Sleep(10 * time.Millisecond)
+	// Reaper: a health-check loop that the proxy failed to stop (a leak that the C06/C17
+	// monitors report from the probe logs) would tick forever and keep the bubble alive.
+	// Its next completed probe ends the goroutine instead.
+	reaper := func(point string, args ...any) {
+		if point == "target.health.recorded" {
+			runtime.Goexit()
+		}
+	}
+	server.VerifHook.Store(&reaper)
+	// also outlast every max-pause timer of requests still held by a service that was removed
+	// while paused (the bubble must be empty when the scenario returns; time stops advancing then)
+	time.Sleep(3 * time.Hour)
 	server.VerifHook.Store(nil)
 	server.VerifDial.Store(nil)
 	http.DefaultClient = w.prevClient
